@@ -964,9 +964,124 @@ def register_read(R):
     )
 
 
+# ===========================================================================
+# read_swc: plumbing of `extra_cols` / `names` / `encoding` into parse_swc.  The dispatch contract above (all fix_roots x sort_nodes x
+# reset_index combinations) fixes extra_cols=None, names=None, encoding='utf-8'; this second contract of the SAME function (registered
+# under an alias key that resolves to the same source, like Tree.from_swc) varies exactly those three and keeps the dispatch options
+# at their defaults / reset_index off.
+def register_read_plumbing(R):
+    from pyvc.values import Callback, fresh
+    from swcgeom.core.swc_utils import get_names
+
+    names = get_names()
+    NCOLS = names.cols()
+
+    def single_root_stub(eng, args, kwargs):
+        eng.assumptions.add("assumed-contract(local to read_swc): is_single_root is pure")
+        eng.call_log.append(("is_single_root", dict(df=args[0], kwargs=dict(kwargs))))
+        return fresh("bool", "is_single_root")
+
+    def setup(extra, names_given, encoding, reset_index):
+        def f(S):
+            IOX.install_io(AStr)
+            ex = PList(list(extra)) if extra is not None else None
+            if ex is not None:
+                ex.frozen = True
+            return dict(swc_file=S.opaque({}, "swc_file"), extra_cols=ex, fix_roots=False, sort_nodes=False, reset_index=reset_index,
+                        encoding=encoding, names=(names if names_given else None), g_extra=list(extra or []))
+
+        return f
+
+    def ne(v):
+        return len(v["g_extra"])
+
+    def axioms(E, fr):
+        ghost_axioms(E, fr.vars["swc_file"].z, len(fr.vars["g_extra"]), names)
+
+    def rows(f):
+        return RCNT(f, NL(f))
+
+    def pre_root(E, v, o):
+        f, j = v["swc_file"].z, z3.Int(fresh_name("j"))
+        return z3.Exists([j], z3.And(j >= 0, j < rows(f), field(ne(v), LINE(f, RLINE(f, j)), 6) == -1))
+
+    def calls(E, name):
+        return [a for nm, a in E.call_log if nm == name]
+
+    def parsed(E):
+        ps = E.ghost.get("parsed", [])
+        return ps[0] if len(ps) == 1 else None
+
+    def post_plumbing(E, v, o):
+        cs = calls(E, "parse_swc")
+        if len(cs) != 1 or parsed(E) is None:
+            return False
+        a = cs[0]
+        return (a["fname"] is o["swc_file"] and a["extra_cols"] is v["extra_cols"] and a["encoding"] == o["encoding"] and a["names"] == names
+                and a["names"] is (o["names"] if o["names"] is not None else a["names"]))
+
+    def post_table(E, v, o):
+        p = parsed(E)
+        if p is None:
+            return False
+        df, cm = v["result"]
+        if df is not p["df"] or cm is not p["comments"] or list(df.cols) != NCOLS + v["g_extra"]:
+            return False
+        c0 = p["comments0"]
+        return z3.And(zint(cm.n) == zint(c0.n), cm.cols[0] == c0.cols[0])
+
+    def post_values(E, v, o):
+        """one entry per row line; every column - the requested extra ones included - holds what the rows say (ids / parents re-based
+        when reset_index is on: that arithmetic is C18's contract of reset_index_)"""
+        p = parsed(E)
+        if p is None:
+            return False
+        df, _ = v["result"]
+        f, allc = o["swc_file"].z, NCOLS + v["g_extra"]
+        keep = [c for c in allc if not (o["reset_index"] and c in (names.id, names.pid))]
+        out = [zint(df.n) == rows(f)]
+        for c in keep:
+            j = z3.Int(fresh_name("j"))
+            out.append(z3.ForAll([j], z3.Implies(z3.And(j >= 0, j < zint(df.n)), z3.Select(df.cols[c].arr, j) == field(ne(v), LINE(f, RLINE(f, j)), allc.index(c)))))
+        return z3.And(*out)
+
+    def post_names_to_checker(E, v, o):
+        cs = calls(E, "is_single_root")
+        return len(cs) == 1 and cs[0]["kwargs"].get("names") == names and set(cs[0]["kwargs"]) == {"names"}
+
+    def may_raise(E, v, o):
+        f, j = v["swc_file"].z, z3.Int(fresh_name("j"))
+        return z3.Exists([j], z3.And(j >= 0, j < NL(f), z3.Not(line_ok(ne(v), f, j))))
+
+    R.add(
+        f"{IO}:<locals>.read_swc",
+        prop="C02",
+        variants={
+            "one-extra-column,names-omitted,encoding=gbk,reset_index": setup(["e"], False, "gbk", True),
+            "two-extra-columns,names-given,encoding=detect,no-reset": setup(["e", "g"], True, "detect", False),
+            "no-extra-column,names-given,encoding=utf-8,reset_index": setup(None, True, "utf-8", True),
+            "empty-extra-list,names-omitted,encoding=latin-1,no-reset": setup([], False, "latin-1", False),
+        },
+        lemmas=[axioms],
+        options=dict(globals_override={"is_single_root": Callback("is_single_root", single_root_stub)}),
+        requires=[("file-has-a-root-row", pre_root)],
+        raises={"ValueError": ("only-for-a-bad-file", may_raise),
+                "OSError": ("unreadable-source", lambda E, v, o: UNREADABLE(v["swc_file"].z))},
+        ensures=[
+            ("parse_swc-called-once-with-the-caller's-source-extra-columns-encoding-and-names(default-names-when-omitted)", post_plumbing),
+            ("returns-the-parsed-table-with-the-seven-columns-then-the-extra-columns-and-the-untouched-comment-list", post_table),
+            ("one-entry-per-row-and-every-column-extra-ones-included-holds-what-the-rows-say", post_values),
+            ("the-same-names-go-to-the-single-root-check", post_names_to_checker),
+        ],
+        notes="second contract of read_swc (alias key): extra_cols / names / encoding vary, dispatch options at defaults; is_single_root is a local "
+              "assumed stand-in (pure, only feeds a warning), parse_swc and reset_index_ enter through their verified contracts",
+    )
+
+
 _register_0 = register
 
 
 def register(R):  # noqa: F811
     _register_0(R)
     register_read(R)
+    register_read_plumbing(R)
